@@ -49,14 +49,34 @@ def cases(rng, tier):
                    "exn": rng.choice([None, None, "boom"]), "later": gen_calls(rng, rng.randrange(0, 8), False)}
         else:
             yield {"op": kind, "raises": raises, "calls": gen_calls(rng, rng.choice([0, 1, 2, 5, 10, 40]))}
+    # re-entrant scripts: calls made from INSIDE the user callback triggered by the parent call
+    for i in range(fw.tier_scale(tier, 600, 6000)):
+        calls = []
+        for c in gen_calls(rng, rng.choice([1, 2, 3, 5, 8]), False):
+            kids = gen_calls(rng, rng.choice([0, 0, 1, 2, 3]), False)
+            calls.append(c + [kids] if c[0] != "next" else [c[0], c[1], kids])
+        yield {"op": rng.choice(["ado_reentrant", "obs_reentrant"]), "raises": [], "calls": calls}
     # pipeline cases: oracle only (no model request)
     for i in range(fw.tier_scale(tier, 600, 6000)):
         yield gen_pipeline(rng)
 
 
+def _flatten(calls):
+    out = []
+    for c in calls:
+        kids = c[-1]
+        out.append(c[:-1])
+        out.extend(kids)
+    return out
+
+
 def model_request(case):
     if case["op"] == "pipeline":
         return None
+    if case["op"].endswith("_reentrant"):
+        # the model is the LINEAR call list: a call made from inside a callback is just the next call, because every
+        # method decides on is_stopped at entry and sets it before calling out (C01.lean header)
+        return {"op": case["op"].replace("_reentrant", "_script"), "raises": [], "calls": _flatten(case["calls"])}
     c = dict(case)
     if c.get("exn") is None:
         c.pop("exn", None)
@@ -74,6 +94,10 @@ class Recorder:
         k = self.k
         self.k += 1
         self.log.append(item)
+        pend = getattr(self, "pending", None)
+        if pend:
+            self.pending = None
+            drive_raw(pend[0], pend[1])   # re-entrant calls from inside the callback
         if k in self.raises:
             raise InjectedError(f"cb{k}")
 
@@ -121,6 +145,14 @@ def impl(case):
     from reactivex import Observable
 
     rec = Recorder(case["raises"])
+    if op in ("ado_reentrant", "obs_reentrant"):
+        target = (AutoDetachObserver if op == "ado_reentrant" else Observer)(rec.on_next, rec.on_error, rec.on_completed)
+        for c in case["calls"]:
+            kids = c[-1]
+            rec.pending = (target, kids)
+            drive_raw(target, [c[:-1]])
+            rec.pending = None
+        return {"seen": rec.log}
     if op == "ado_script":
         ado = AutoDetachObserver(rec.on_next, rec.on_error, rec.on_completed)
         cnt = [0]
@@ -178,6 +210,8 @@ def drive_raw(target, calls):
 
 
 def canon_model(case, out):
+    if case["op"].endswith("_reentrant") and isinstance(out, list):
+        return {"seen": [o["d"] for o in out if o["d"] is not None]}
     return out
 
 
@@ -194,7 +228,7 @@ def oracle(case, out):
             if not grammar_ok(seq):
                 return f"subscriber {name} saw ill-formed sequence {seq}"
         return None
-    seq = out["seen"] if case["op"] == "subscribe_script" else [o["d"] for o in out if o["d"] is not None]
+    seq = out["seen"] if case["op"] in ("subscribe_script", "ado_reentrant", "obs_reentrant") else [o["d"] for o in out if o["d"] is not None]
     if not grammar_ok(seq):
         return f"ill-formed callback sequence {seq}"
     return None
@@ -203,6 +237,8 @@ def oracle(case, out):
 def nontrivial(case, out):
     if case["op"] == "pipeline":
         return any(len(s) > 0 for s in out["subscribers"].values()) and case["nonconforming"]
+    if case["op"].endswith("_reentrant"):
+        return any(c[-1] for c in case["calls"])
     calls = case.get("calls") or (case["body"] + case["later"])
     term = [i for i, c in enumerate(calls) if c[0] in ("error", "completed", "dispose", "fail")]
     return bool(term and term[0] < len(calls) - 1) or bool(case["raises"])
@@ -222,6 +258,12 @@ def shrink(case):
         for s in range(len(case["sources"])):
             for i in range(len(case["sources"][s])):
                 c = dict(case); c["sources"] = [list(x) for x in case["sources"]]; del c["sources"][s][i]; yield c
+        return
+    if case["op"].endswith("_reentrant"):
+        for i in range(len(case["calls"])):
+            c = dict(case); c["calls"] = case["calls"][:i] + case["calls"][i + 1:]; yield c
+            if case["calls"][i][-1]:
+                c = dict(case); c["calls"] = [list(x) for x in case["calls"]]; c["calls"][i][-1] = case["calls"][i][-1][1:]; yield c
         return
     for fld in ("calls", "body", "later"):
         if fld in case:
